@@ -41,6 +41,10 @@ def _make_module(tag):
         @staticmethod
         def decode(params):
             LOG.append(('system', tag, params['id'], params.get('model')))
+            if tag == 'pop':
+                # user code that consumes the entries it was handed (pop before Cls(**params)): the dict is its own
+                kw = {k: params.pop(k) for k in ('frequency', 'start', 'end') if k in params}
+                return DSystem(params.pop('id'), params.pop('model'), priority=params.pop('priority', 0), **kw)
             kw = {k: params[k] for k in ('frequency', 'start', 'end') if k in params}
             return DSystem(params['id'], params['model'], priority=params.get('priority', 0), **kw)
 
@@ -54,6 +58,8 @@ def _make_module(tag):
 
     def hook(params):
         LOG.append(('hook', tag, params['name'], params.get('model')))
+        if tag == 'pop':
+            params.clear()
 
     class _Callable:
         def __call__(self, params):
@@ -150,6 +156,7 @@ def run_history(h, props=None):
     _make_module('a')
     _make_module('b')
     _make_module('lazy')
+    _make_module('pop')
     out = []
 
     class MemDecoder(Decoder):
@@ -258,5 +265,11 @@ def histories(seed, budget, prop='C18'):
     yield ('decode_json', [dict(full, groups=[dict(n=0, pre=True, post=True, mod='a'), dict(n=2, pre=True, post=False, mod='a'),
                                               dict(n=0, pre=False, post=True, mod='b')])])
     yield ('decode', [other, full])
+    # the same description text decoded again and again in one process, by user code that consumes what it is handed
+    popper = dict(full, mod='pop', systems=[dict(id='s0', prio=1, pre=True, post=True, mod='pop', frequency=2, start=1, end=9),
+                                            dict(id='s1', prio=0, pre=False, post=True, mod='pop', end=4)],
+                  groups=[dict(n=2, pre=True, post=True, mod='pop'), dict(n=0, pre=True, post=True, mod='pop')])
+    yield ('decode_json', [popper, popper, popper])
+    yield ('decode_json', [popper, dict(popper, pre=False), popper])
     for k in range(budget):
         yield ('decode_json' if k % 5 == 0 else 'decode', [_desc(rng) for _ in range(rng.randint(1, 3))])
